@@ -186,7 +186,7 @@ class ReadTagFragmentedRequestPacket(ReadTagRequestPacket):
         offset=0,
     ) -> "ReadTagFragmentedRequestPacket":
         new_request = cls(
-            next(sequence),
+            sequence,  # the count is drawn when the request is sent
             request.tag,
             request.elements,
             request.tag_info,
@@ -313,7 +313,7 @@ class WriteTagFragmentedRequestPacket(WriteTagRequestPacket):
         value: bytes = b"",
     ) -> "WriteTagFragmentedRequestPacket":
         new_request = cls(
-            next(sequence),
+            sequence,  # the count is drawn when the request is sent
             request.tag,
             request.elements,
             request.tag_info,
